@@ -99,7 +99,7 @@ def check(repo: Repo, rep: Report) -> None:
         if x.ctx.finals:
             return ("finally", id(x.ctx.finals[-1]))
         for h in x.ctx.handlers:
-            if (h.type is None or u(h.type) in ("BaseException", "Exception")) and any(isinstance(y, ast.Raise) and y.exc is None for y in ast.walk(h)):
+            if (h.type is None or u(h.type) == "BaseException") and any(isinstance(y, ast.Raise) and y.exc is None for y in ast.walk(h)):
                 return ("handler", id(h))
         return None
     ok = bool(clears) and bool(idles) and all(_failure_ctx(c) and c.ctx.locks for c in clears) and \
